@@ -116,11 +116,19 @@ package cache
 //@   ghost var fwd int = 0
 //@   at after@cache.Cache.Delete: fwd := fwd + 1
 //@   at exit: assert write_through: fwd == 1
+//@   ghost var dropped int = 0
+//@   at after@simplelru.LRU.Remove: dropped := dropped + 1
+//@   at before@simplelru.LRU.Remove: assert same_key: same($a0, key)
+//@   at exit: assert local_copy_dropped: dropped == 1
 //@ func LRUCache.Set
 //@   property C19
 //@   ghost var fwd int = 0
 //@   at after@cache.Cache.Set: fwd := fwd + 1
 //@   at exit: assert write_through: fwd == 1
+//@   ghost var local int = 0
+//@   at after@simplelru.LRU.Add: local := local + 1
+//@   at before@simplelru.LRU.Add: assert stored_value: same($a0, key) && $a1 != nil && same($a1.Data, value)
+//@   at exit: assert local_copy_replaced: local == 1
 //@ func LRUCache.Add
 //@   property C19
 //@   ghost var fwd int = 0
@@ -131,13 +139,26 @@ package cache
 //@   at after@simplelru.LRU.Add: local := local + 1
 //@   # add-if-absent: the local copy is taken only when the wrapped cache accepted the entry
 //@   at exit: assert write_through: fwd == 1 && (innerErr ==> local == 0) && (result != nil <==> innerErr)
+//@   # ... and it IS taken (replacing whatever the LRU held for the key) once the wrapped cache accepted it: an older
+//@   # local copy left in place would answer later reads instead of the value just stored
+//@   at exit: assert local_copy_replaced: !innerErr ==> local == 1
+//@   at before@simplelru.LRU.Add: assert stored_value: same($a0, key) && $a1 != nil && same($a1.Data, value)
 //@ func LRUCache.SetAsync
 //@   property C19
 //@   ghost var fwd int = 0
 //@   at after@cache.Cache.SetAsync: fwd := fwd + 1
 //@   at exit: assert write_through: fwd == 1
+//@   ghost var local int = 0
+//@   at after@simplelru.LRU.Add: local := local + 1
+//@   at before@simplelru.LRU.Add: assert stored_value: same($a0, key) && $a1 != nil && same($a1.Data, value)
+//@   at exit: assert local_copy_replaced: local == 1
 //@ func LRUCache.SetMultiAsync
 //@   property C19
 //@   ghost var fwd int = 0
 //@   at after@cache.Cache.SetMultiAsync: fwd := fwd + 1
 //@   at exit: assert write_through: fwd == 1
+//@   ghost var local int = 0
+//@   at after@simplelru.LRU.Add: local := local + 1
+//@   at before@simplelru.LRU.Add: assert stored_value: same($a0, $k) && $a1 != nil && same($a1.Data, data[$k])
+//@   loop 0 invariant local == $i && fwd == 1
+//@   at exit: assert every_entry_copied: local == len(data)
